@@ -17,6 +17,7 @@ def jt_behaviours(tier, tag="jt", maxlen=None):
     if os.path.exists(path) and os.path.exists(stats_p):
         st = json.load(open(stats_p))
         if st.get("stamp") == stamp:
+            st["reused_from_cache"] = True      # same specification files (mtime stamp): the emitted behaviours of the earlier TLC run are reused
             return path, st
     st = tlc_mc("MC_JsonText", {"MaxLen": ml, "MaxDepth": 3, "EmitOn": "TRUE"}, emit_path=path, tag="MC_JsonText_%d" % ml)
     st["stamp"] = stamp
@@ -360,6 +361,7 @@ def dom_behaviours(tier):
     if os.path.exists(path) and os.path.exists(stats_p):
         st = json.load(open(stats_p))
         if st.get("stamp") == stamp:
+            st["reused_from_cache"] = True      # same specification files (mtime stamp): the emitted behaviours of the earlier TLC run are reused
             return path, st
     st = tlc_mc("MC_Dom", {"MaxOps": k, "EmitOn": "TRUE"}, emit_path=path, tag="MC_Dom_%d" % k)
     st["stamp"] = stamp
@@ -502,6 +504,7 @@ def simd_tables():
     if os.path.exists(path) and os.path.exists(stats_p):
         st = json.load(open(stats_p))
         if st.get("stamp") == stamp:
+            st["reused_from_cache"] = True      # same specification files (mtime stamp): the emitted behaviours of the earlier TLC run are reused
             return path, st
     st = tlc_mc("MC_Simd", {"EmitOn": "TRUE"}, emit_path=path, tag="MC_Simd", workers=8)
     st["stamp"] = stamp
@@ -695,6 +698,7 @@ def serde_behaviours():
     if os.path.exists(path) and os.path.exists(stats_p):
         st = json.load(open(stats_p))
         if st.get("stamp") == stamp:
+            st["reused_from_cache"] = True      # same specification files (mtime stamp): the emitted behaviours of the earlier TLC run are reused
             return path, st
     st = tlc_mc("MC_Serde", {"EmitOn": "TRUE"}, emit_path=path, tag="MC_Serde", workers=8)
     st["stamp"] = stamp
